@@ -193,12 +193,16 @@ pub const LARGE_SIZES: [(usize, usize); 13] = [
 ];
 
 /// The real-size frames of a tier: quick = the first eight LARGE_SIZES plus UHD-1 (3840x2160, the size at which
-/// "large frame" paths typically switch on); thorough = all of LARGE_SIZES, UHD-1, DCI 4K and 8K UHD-2.
+/// "large frame" paths typically switch on) and 2897x2897 (odd count above 2^23); thorough = all of LARGE_SIZES, UHD-1,
+/// 2897x2897, DCI 4K, 4097x4097 (odd count above 2^24) and 8K UHD-2.
 pub fn large_sizes(quick: bool) -> Vec<(usize, usize)> {
     let mut v: Vec<(usize, usize)> = if quick { LARGE_SIZES[..8].to_vec() } else { LARGE_SIZES.to_vec() };
     v.push((3840, 2160));
+    // an odd pixel count just above 2^23 (work split over threads / tiles leaves a remainder there)
+    v.push((2897, 2897));
     if !quick {
         v.push((4096, 2160));
+        v.push((4097, 4097));
         v.push((7680, 4320));
     }
     v
